@@ -58,3 +58,207 @@ package wire
 //@   ensures [mandatory] {C17 C02} result == nil ==> (hasbit(#E_mask, 1) && hasbit(#E_mask, 2) && hasbit(#E_mask, 4))
 //@   ensures [writer-reset] writer.err == nil && writer.frame.#blen == 0
 //@   modifies WriterState(writer), Out(), #maxalloc, #nalloc
+
+// ---- connection context -----------------------------------------------------
+
+//@ func setTypeInfo
+//@   props C09 C12 C19 C04
+//@   requires info != nil
+//@   ensures result != nil && ctxval(result, 0) == box(info) && CtxSame(result, ctx, 1) && CtxSame(result, ctx, 2) && CtxSame(result, ctx, 3)
+//@   modifies nothing
+
+//@ func TypeMap
+//@   props C09 C12 C19 C04
+//@   requires ctx != nil
+//@   ensures result == (ctxval(ctx, 0) == nil ? nil : cast(ctxval(ctx, 0), "*pgtype.Map"))
+//@   modifies nothing
+
+//@ func setRemoteAddress
+//@   props C12 C19 C04
+//@   ensures result != nil && ctxval(result, 3) == box(addr) && CtxSame(result, ctx, 0) && CtxSame(result, ctx, 1) && CtxSame(result, ctx, 2)
+//@   modifies nothing
+
+//@ func RemoteAddress
+//@   props C12 C19 C04
+//@   requires ctx != nil
+//@   ensures result == ctxval(ctx, 3)
+//@   modifies nothing
+
+//@ func setClientParameters
+//@   props C12 C19 C04
+//@   ensures params == nil ==> result == ctx
+//@   ensures params != nil ==> (result != nil && ctxval(result, 1) == box(params) && CtxSame(result, ctx, 0) && CtxSame(result, ctx, 2) && CtxSame(result, ctx, 3))
+//@   modifies nothing
+
+//@ func ClientParameters
+//@   props C12 C19 C04
+//@   requires ctx != nil
+//@   ensures result == (ctxval(ctx, 1) == nil ? nil : cast(ctxval(ctx, 1), "wire.Parameters"))
+//@   modifies nothing
+
+//@ func setServerParameters
+//@   props C12 C19 C04
+//@   ensures params == nil ==> result == ctx
+//@   ensures params != nil ==> (result != nil && ctxval(result, 2) == box(params) && CtxSame(result, ctx, 0) && CtxSame(result, ctx, 1) && CtxSame(result, ctx, 3))
+//@   modifies nothing
+
+//@ func ServerParameters
+//@   props C12 C19 C04
+//@   requires ctx != nil
+//@   ensures result == (ctxval(ctx, 2) == nil ? nil : cast(ctxval(ctx, 2), "wire.Parameters"))
+//@   modifies nothing
+
+//@ func IsSuperUser
+//@   props C12 C04
+//@   ensures result == false
+//@   modifies nothing
+
+//@ func AuthenticatedUsername
+//@   props C12 C04
+//@   requires ctx != nil
+//@   ensures result == (ctxval(ctx, 1) == nil ? "" : cast(ctxval(ctx, 1), "wire.Parameters")["user"])
+//@   modifies nothing
+
+// ---- RowDescription / DataRow / CopyInResponse --------------------------------
+
+//@ func (Column).Define
+//@   props C02 C08 C04
+//@   requires writer != nil
+//@   requires [in-row-description] writer.err == nil ==> (FrameOK(writer) && writer.#ft == 'T' && writer.#gs == 10 && writer.#gk < writer.#gn)
+//@   ensures [one-field] old(writer.err) == nil ==> (writer.err == nil && FrameOK(writer) && writer.#ft == 'T' && writer.#gs == 10 && writer.#gk == old(writer.#gk) + 1 && writer.#gn == old(writer.#gn))
+//@   ensures [latched] old(writer.err) != nil ==> writer.err == old(writer.err)
+//@   callsite (*buffer.Writer).AddInt16 [format-last] {C08} ($i == column.AttrNo || $i == column.Width || $i == format)
+//@   modifies WriterState(writer)
+
+//@ func (Columns).Define
+//@   props C02 C05 C06 C08 C04
+//@   requires WriterReady(writer)
+//@   ensures [none] len(columns) == 0 ==> (result == nil && #nOut == old(#nOut) && #cyc == old(#cyc) && #last == old(#last) && #nZ == old(#nZ) && #nE == old(#nE) && #failed == old(#failed))
+//@   ensures [one-T] (len(columns) > 0 && result == nil) ==> (#nOut == old(#nOut) + 1 && #last == 'T' && #nZ == old(#nZ) && #nE == old(#nE) && #cyc == cycStep(old(#cyc), 'T') && #failed == old(#failed))
+//@   ensures [failed] result != nil ==> (#nOut == old(#nOut) && #nZ == old(#nZ) && #nE == old(#nE) && #cyc == old(#cyc) && #failed)
+//@   ensures [fail-stop] (old(#failed) && len(columns) > 0) ==> result != nil
+//@   ensures [err-kind] result != nil ==> !isExceeded(result)
+//@   callsite (wire.Column).Define [same-format] {C08 C09} $format == selFmt(formats0, index)
+//@   modifies WriterState(writer), Out()
+//@   loop 0
+//@     invariant [frame] writer.err == nil && FrameOK(writer) && writer.#ft == 'T' && writer.#gs == 10 && writer.#gn == len(columns) && writer.#gk == $index + 1
+//@     invariant [range] -1 <= $index && $index + 1 <= len(columns)
+//@     invariant [formats] len(formats0) == 0 ? (len(formats) == 1 && formats[0] == 0) : formats == formats0
+//@     invariant [out] #nOut == old(#nOut) && #nZ == old(#nZ) && #nE == old(#nE) && #last == old(#last) && #cyc == old(#cyc) && #failed == old(#failed)
+//@     decreases len(columns) - $index
+
+//@ func (Columns).CopyIn
+//@   props C02 C13 C04
+//@   requires WriterReady(writer) && ctx != nil
+//@   requires [format01] {C02} format == 0 || format == 1
+//@   ensures [one-G] result == nil ==> (#nOut == old(#nOut) + 1 && #last == 'G' && #nZ == old(#nZ) && #nE == old(#nE) && #cyc == cycStep(old(#cyc), 'G') && #failed == old(#failed) && len(columns) > 0)
+//@   ensures [nothing] result != nil ==> (#nOut == old(#nOut) && #nZ == old(#nZ) && #nE == old(#nE) && #cyc == old(#cyc) && #last == old(#last))
+//@   modifies WriterState(writer), Out()
+//@   loop 0
+//@     invariant [frame] writer.err == nil && FrameOK(writer) && writer.#ft == 'G' && writer.#gs == 31 && writer.#gn == len(columns) && writer.#gk == $index + 1
+//@     invariant [range] -1 <= $index && $index + 1 <= len(columns)
+//@     invariant [out] #nOut == old(#nOut) && #nZ == old(#nZ) && #nE == old(#nE) && #last == old(#last) && #cyc == old(#cyc) && #failed == old(#failed)
+//@     decreases len(columns) - $index
+
+//@ func (Column).Write
+//@   props C02 C09 C04
+//@   requires writer != nil && ctx != nil
+//@   requires [in-data-row] writer.err == nil ==> (FrameOK(writer) && writer.#ft == 'D' && writer.#gs == 20 && writer.#gk < writer.#gn)
+//@   ensures [one-value] (err == nil && old(writer.err) == nil) ==> (writer.err == nil && FrameOK(writer) && writer.#ft == 'D' && writer.#gs == 20 && writer.#gk == old(writer.#gk) + 1 && writer.#gn == old(writer.#gn))
+//@   ensures [abandon] err != nil ==> (writer.err == old(writer.err) && writer.frame.#blen == old(writer.frame.#blen) && writer.#gs == old(writer.#gs) && writer.#gk == old(writer.#gk))
+//@   callsite (*buffer.Writer).AddInt32 [null-iff] {C09} ($i == -1) <==> (bb == nil)
+//@   callsite (*buffer.Writer).AddInt32 [length] {C09} bb != nil ==> $i == len(bb)
+//@   callsite (*pgtype.Map).Encode [own-format] {C08 C09} $formatCode == format && $oid == column.Oid && $value == src
+//@   modifies WriterState(writer), CtxTypeMap(ctx).#memo
+
+//@ func (Columns).Write
+//@   props C02 C05 C08 C09 C04
+//@   requires WriterReady(writer) && ctx != nil
+//@   ensures [arity] len(srcs) != len(columns) ==> (err != nil && #nOut == old(#nOut) && #cyc == old(#cyc) && #last == old(#last) && #failed == old(#failed))
+//@   ensures [one-D] err == nil ==> (len(srcs) == len(columns) && #nOut == old(#nOut) + 1 && #last == 'D' && #nZ == old(#nZ) && #nE == old(#nE) && #cyc == cycStep(old(#cyc), 'D') && #failed == old(#failed))
+//@   ensures [rejected-nothing] err != nil ==> (#nOut == old(#nOut) && #nZ == old(#nZ) && #nE == old(#nE) && #cyc == old(#cyc) && #last == old(#last))
+//@   callsite (wire.Column).Write [same-format] {C08 C09} $format == selFmt(formats0, index) && $src == srcs[index]
+//@   modifies WriterState(writer), Out(), CtxTypeMap(ctx).#memo
+//@   loop 0
+//@     invariant [frame] writer.err == nil && FrameOK(writer) && writer.#ft == 'D' && writer.#gs == 20 && writer.#gn == len(columns) && writer.#gk == $index + 1
+//@     invariant [range] -1 <= $index && $index + 1 <= len(columns) && len(srcs) == len(columns)
+//@     invariant [formats] len(formats0) == 0 ? (len(formats) == 1 && formats[0] == 0) : formats == formats0
+//@     invariant [out] #nOut == old(#nOut) && #nZ == old(#nZ) && #nE == old(#nE) && #last == old(#last) && #cyc == old(#cyc) && #failed == old(#failed)
+//@     decreases len(columns) - $index
+
+// ---- DataWriter ---------------------------------------------------------------------
+// Every exported method proves the callback lemma of C05: it emits no ReadyForQuery
+// and no ErrorResponse and keeps the cycle monitor inside "result of a statement".
+
+//@ func NewDataWriter
+//@   props C05 C04
+//@   ensures typeis(result, "*wire.dataWriter") && fresh(val(result))
+//@   ensures cast(result, "*wire.dataWriter").ctx == ctx && cast(result, "*wire.dataWriter").columns == columns && cast(result, "*wire.dataWriter").formats == formats && cast(result, "*wire.dataWriter").client == writer && cast(result, "*wire.dataWriter").reader == reader && !cast(result, "*wire.dataWriter").closed && cast(result, "*wire.dataWriter").written == 0
+//@   modifies nothing
+
+//@ func (*dataWriter).Columns
+//@   props C05 C04
+//@   requires writer != nil
+//@   ensures result == writer.columns
+//@   modifies nothing
+
+//@ func (*dataWriter).Written
+//@   props C05 C04
+//@   requires writer != nil
+//@   ensures result == writer.written
+//@   modifies nothing
+
+//@ func (*dataWriter).close
+//@   props C05 C04
+//@   requires writer != nil
+//@   ensures writer.closed
+//@   modifies writer.closed
+
+//@ func (*dataWriter).Define
+//@   props C05 C02 C04
+//@   requires DwOK(writer)
+//@   ensures [closed-fails] old(writer.closed) ==> (result != nil && OutSame() && writer.columns == old(writer.columns))
+//@   ensures [cb-no-ZE] #nZ == old(#nZ) && #nE == old(#nE)
+//@   ensures [cb-cycle] (old(#cyc) == 0) ==> InStmt(#cyc)
+//@   modifies writer.columns, WriterState(writer.client), Out()
+
+//@ func (*dataWriter).Row
+//@   props C05 C09 C02 C04
+//@   requires DwOK(writer)
+//@   ensures [closed-fails] old(writer.closed) ==> (result != nil && OutSame() && writer.written == old(writer.written))
+//@   ensures [delivered] result == nil ==> (#nOut == old(#nOut) + 1 && #last == 'D' && #cyc == cycStep(old(#cyc), 'D') && writer.written == wrap64u(old(writer.written) + 1) && !old(writer.closed) && len(values) == len(writer.columns))
+//@   ensures [rejected-nothing] result != nil ==> (#nOut == old(#nOut) && #cyc == old(#cyc) && #last == old(#last) && writer.written == old(writer.written))
+//@   ensures [cb-no-ZE] #nZ == old(#nZ) && #nE == old(#nE)
+//@   ensures [cb-cycle] (old(#cyc) == 0 || old(#cyc) == 1) ==> (#cyc == 0 || #cyc == 1)
+//@   modifies writer.written, WriterState(writer.client), Out(), CtxTypeMap(writer.ctx).#memo
+
+//@ func (*dataWriter).Empty
+//@   props C05 C04
+//@   requires writer != nil
+//@   ensures [closed-fails] old(writer.closed) ==> (result != nil && writer.closed)
+//@   ensures [after-rows] (!old(writer.closed) && old(writer.written) != 0) ==> (result != nil && !writer.closed)
+//@   ensures [closes] (!old(writer.closed) && old(writer.written) == 0) ==> (result == nil && writer.closed)
+//@   modifies writer.closed
+
+//@ func (*dataWriter).Complete
+//@   props C05 C02 C04
+//@   requires DwOK(writer)
+//@   requires [nulfree-tag] {C02} nulfree(description)
+//@   ensures [closed-fails] old(writer.closed) ==> (result != nil && OutSame())
+//@   ensures [one-C] result == nil ==> (#nOut == old(#nOut) + 1 && #last == 'C' && #cyc == cycStep(old(#cyc), 'C') && writer.closed && !old(writer.closed))
+//@   ensures [closes] !old(writer.closed) ==> writer.closed
+//@   ensures [cb-no-ZE] #nZ == old(#nZ) && #nE == old(#nE)
+//@   ensures [cb-cycle] (InStmt(old(#cyc)) && result == nil) ==> #cyc == 0
+//@   ensures [cb-cycle-err] (InStmt(old(#cyc)) && result != nil) ==> InStmt(#cyc)
+//@   modifies writer.closed, WriterState(writer.client), Out()
+
+//@ func (*dataWriter).CopyIn
+//@   props C05 C13 C02 C04
+//@   requires DwOK(writer) && writer.reader != nil && writer.reader.MaxMessageSize >= 0
+//@   requires [format01] {C02} format == 0 || format == 1
+//@   ensures [closed-fails] old(writer.closed) ==> (result.1 != nil && result.0 == nil && OutSame())
+//@   ensures [announce] result.1 == nil ==> (#nOut == old(#nOut) + 1 && #last == 'G' && #cyc == cycStep(old(#cyc), 'G') && result.0 != nil && fresh(result.0) && result.0.Reader == writer.reader && result.0.writer == writer.client && result.0.columns == writer.columns)
+//@   ensures [nothing] result.1 != nil ==> (#nOut == old(#nOut) && #cyc == old(#cyc))
+//@   ensures [cb-no-ZE] #nZ == old(#nZ) && #nE == old(#nE)
+//@   ensures [cb-cycle] (old(#cyc) == 0 || old(#cyc) == 1) ==> InStmt(#cyc)
+//@   modifies WriterState(writer.client), Out()
